@@ -131,10 +131,19 @@ func UpdateFAR(f FAR) *ie.IE {
 	ies := []*ie.IE{ie.NewFARID(f.ID), ie.NewApplyAction(f.Action)}
 	if f.HasFwd {
 		fw := fwdIEs(f)
-		if f.HasSMReq || f.EndMarker {
-			fl := uint8(0)
+		if f.OmitDstIf {
+			var kept []*ie.IE
+			for _, e := range fw {
+				if e.Type != ie.DestinationInterface {
+					kept = append(kept, e)
+				}
+			}
+			fw = kept
+		}
+		if f.HasSMReq || f.EndMarker || f.SMExtra != 0 {
+			fl := f.SMExtra &^ 0x02
 			if f.EndMarker {
-				fl = 0x02
+				fl |= 0x02
 			}
 			fw = append(fw, ie.NewPFCPSMReqFlags(fl))
 		}
